@@ -118,8 +118,8 @@ pub struct World {
     pub known_arcs: Vec<(Vec<u8>, c15::Files)>,
 }
 
-const DIRS: [&str; 9] = ["m", "data", "Subdir", "a", "x.y", "zz", "scripts", "tex\\hi", "ver1.0"];
-const FILES: [&str; 21] = ["GameData.bin.lz", "one.bin", "two.txt", "mess.cmp", "f.cms", "plain", "three.txt", "arc.arc", "pack.bin", "t.bin.lz", "GameData.bin", "n-1_@.dat", "tex.ctpk", "model.bch", "ui.bcres", "img.tpl", "odd\\name.bin", "UPPER.LZ", "Mixed.Cmp", "map.v2.cmp", "SAVE.CMS"];
+const DIRS: [&str; 12] = ["m", "data", "Subdir", "a", "x.y", "zz", "scripts", "tex\\hi", "ver1.0", "data.lz", "@E", "e_m"];
+const FILES: [&str; 27] = ["GameData.bin.lz", "one.bin", "two.txt", "mess.cmp", "f.cms", "plain", "three.txt", "arc.arc", "pack.bin", "t.bin.lz", "GameData.bin", "n-1_@.dat", "tex.ctpk", "model.bch", "ui.bcres", "img.tpl", "odd\\name.bin", "UPPER.LZ", "Mixed.Cmp", "map.v2.cmp", "SAVE.CMS", "@E", "e_one.bin", "lz", "x.cmp.bak", "@U.lz", "cmp"];
 
 pub fn gen_dir(rng: &mut Rng) -> String {
     let d = rng.range(0, 3);
